@@ -3,19 +3,19 @@ CONSTANTS
   Sinks = {"s1", "s2", "s3"}
   Fallbacks = {"fb", "none"}
   FbStartStop = {TRUE, FALSE}
-  Rules <- RulesSS
+  Rules <- RulesRe
   Events <- EventsS
   BadRules <- BadNone
   MaxRejected = 0
-  MaxRules = 2
-  MaxStatus = 1
-  MaxRuns = 1
-  MaxReent = 0
+  MaxRules = 1
+  MaxStatus = 0
+  MaxRuns = 2
+  MaxReent = 2
   RulesInRun = TRUE
   Export = FALSE
-  Variant = "asCoded"
+  Variant = "snapshot"
 VIEW ViewNoHist
 INVARIANT OneDestination
 INVARIANT PushPopInverse
-INVARIANT StartStopExact
+INVARIANT StartStopBalanced
 CHECK_DEADLOCK FALSE
